@@ -15,8 +15,23 @@ Definition cleb (c c' : cluster) : bool :=
           (map_to_list c).
 
 (* one observed step: nothing regresses (the per-exchange join equality is part of the
-   model correspondence, not of the property, so the monitor does not demand it) *)
-Definition ok_step (c : cluster) (o : op) (c' : cluster) : bool := cleb c c'.
+   model correspondence, not of the property, so the monitor does not demand it); a restart
+   must bring the host to a strictly newer generation than anything its previous run used *)
+Definition host_gen (c : cluster) (i : N) : option N :=
+  match c !! i with
+  | Some v => match v !! i with Some m => Some (gen (m_hb m)) | None => None end
+  | None => None
+  end.
+Definition ok_step (c : cluster) (o : op) (c' : cluster) : bool :=
+  cleb c c' &&
+  match o with
+  | Restart i => match host_gen c i, host_gen c' i with
+                 | Some g, Some g' => g <? g'
+                 | Some _, None => false
+                 | None, _ => true
+                 end
+  | _ => true
+  end.
 
 Definition is_exchangeb (o : op) : bool := match o with Exchange _ _ => true | _ => false end.
 
